@@ -141,6 +141,8 @@ def r03_2(prog: Program, rep: Report):
                 ok, why = True, "None after a None test"
             elif r[0] == "call" and r[1] == C.sattr("resolved"):
                 ok, why = True, "delegation to the resolved routine"
+            elif r[0] == "call" and r[1][0] == "attr" and r[1][2] == "__call__" and T.is_call_to(r[1][1], "builtins.super"):
+                ok, why = True, "delegation to the parent routine (checked on its own)"
             elif any(pol and g[0] == "cmp" and g[1] == "in" and g[2] == r and g[3] == C.sattr("values") for g, pol in p.guards()):
                 ok, why = True, "member of the literal's values"
             if (key, ok) in seen:
